@@ -44,13 +44,18 @@ Arguments lookup_prop {cell}.
 Definition framework_props : list str :=
   map s2l ["data"; "empty"; "is_first"; "is_last"; "next"; "previous"; "custom_properties"]%string.
 
-(* entry: (t types regs) ; types = list of property-name lists (all class properties, framework's included);
-   regs = list of (type (name value)...) ; isinst is type equality here; result (cols rows) *)
+(* entry: (types sub views) ; types = list of property-name lists (all class properties, framework's included);
+   sub[c][t] = issubclass(type c, type t); views = list of (t regs), regs = list of (type (name value)...);
+   result = one (cols rows) per view *)
 Definition run_C20 (arg : sx) : sx :=
-  let t := sxnat (sxnth 0 arg) in
-  let types := map (fun p => map sxS (sxL p)) (sxL (sxnth 1 arg)) in
-  let regs := map (fun r => {| r_type := sxnat (sxnth 0 r);
-                               r_props := map (fun kv => (sxS (sxnth 0 kv), sxnth 1 kv)) (sxL (sxnth 1 r)) |}) (sxL (sxnth 2 arg)) in
+  let types := map (fun p => map sxS (sxL p)) (sxL (sxnth 0 arg)) in
+  let sub := sxL (sxnth 1 arg) in
+  let isinst := fun c t => sxB (sxnth t (nth c sub (L []))) in
   let cols_of := fun ty => custom_properties (nth ty types []) framework_props in
-  let (cols, rows) := as_df Nat.eqb t cols_of regs in
-  L [L (map Sstr cols); L (map (fun row => L (map (fun c => match c with Some x => x | None => L [I (-1)%Z] end) row)) rows)].
+  L (map (fun v =>
+            let regs := map (fun r => {| r_type := sxnat (sxnth 0 r);
+                                         r_props := map (fun kv => (sxS (sxnth 0 kv), sxnth 1 kv)) (sxL (sxnth 1 r)) |})
+                            (sxL (sxnth 1 v)) in
+            let (cols, rows) := as_df isinst (sxnat (sxnth 0 v)) cols_of regs in
+            L [L (map Sstr cols); L (map (fun row => L (map (fun c => match c with Some x => x | None => L [I (-1)%Z] end) row)) rows)])
+         (sxL (sxnth 2 arg))).
